@@ -39,6 +39,7 @@ func (c03) Plan(tier string, seed int64) []mon.Workload {
 		{Name: "branch-table", N: 8 * 16 * 2 * 3, Exhaustive: true},
 		{Name: "map-iteration", N: n / 10},
 		{Name: "many-locals", N: manyLocalsN(), Exhaustive: true},
+		{Name: "stale-lookup", N: staleLookupN(), Exhaustive: true},
 		{Name: "deep-run", N: int64(len(c01DeepKinds) * len(c01DeepLevels)), Exhaustive: true},
 		{Name: "across-use", N: int64(len(c03UseMains) * len(c03UseLibs)), Exhaustive: true}}
 }
@@ -270,6 +271,9 @@ func (k c03) Describe(c *mon.Ctx, workload string, i int64) any {
 	if workload == "many-locals" {
 		return map[string]any{"source": gt.Print(manyLocalsProgram(i), nil)}
 	}
+	if workload == "stale-lookup" {
+		return map[string]any{"source": gt.Print(staleLookupProgram(i), nil)}
+	}
 	if workload == "deep-run" {
 		return map[string]any{"source": gt.Print(c01DeepRun(i), nil)}
 	}
@@ -329,6 +333,12 @@ func (k c03) Run(c *mon.Ctx, workload string, i int64) {
 	if workload == "deep-run" {
 		st := c01DeepRun(i)
 		runV1Compare(c, progCase{Stmts: st, Src: gt.Print(st, nil), Points: []*ref.Point{ref.NewPoint("m", nil, map[string]any{"f1": int64(1)}, time.Unix(1700000000, 0))}}, "c03.p")
+		return
+	}
+	if workload == "stale-lookup" {
+		st := staleLookupProgram(i)
+		runV1Compare(c, progCase{Stmts: st, Src: gt.Print(st, nil), Points: []*ref.Point{ref.NewPoint("m", nil, map[string]any{"f1": int64(1), "t": "point's t"}, time.Unix(1700000000, 0)),
+			ref.NewPoint("m", nil, map[string]any{"f1": int64(1)}, time.Unix(1700000000, 0))}}, "c03.p")
 		return
 	}
 	if workload == "many-locals" {
